@@ -13,7 +13,11 @@ with `2^d` leaves, every `d ≥ 1`, all indexes / index lists (no bound).
 * (a) `build_nodes_index_scheme`, `new_ok_iff`, `root_is_recursive_hash`
 * (b) `single_opening_verifies`, `prove_out_of_range`
 * (d) `batch_opening_reconstructs_root`  (FULL: refinement of the two level loops of `prove_batch`
-      and `get_root` by a coupled simulation, `Wf/Lemmas/MerkleRoot.lean`), `prove_batch_refuses`
+      and `get_root` by a coupled simulation, `Wf/Lemmas/MerkleRoot.lean`; since fix f1ad895
+      `get_root` also demands `proof_pointers[i] == nodes[i].len()` for every `i` after the walk,
+      so the simulation carries `ptrs = map length` of the prover's vectors to the END of the last
+      level: the honest prover's node vectors are consumed EXACTLY, for all trees and index sets),
+      `prove_batch_refuses`
 * the three batch-proof routes agree: `into_openings_expands_to_single_openings` (FULL: the partial
   tree rebuilt by `into_openings` holds the tree's value at every key a path needs),
   `from_single_proofs_equals_prove_batch` (FULL: coupled simulation of the layer loops of
@@ -23,6 +27,7 @@ NOT proved here: the concurrent build (`concurrent.rs`: rayon subtree schedule) 
 default check builds and exercises the serial crate only.
 -/
 import Wf.Lemmas.MerkleFsp
+import Wf.Lemmas.MerkleConsume
 namespace Wf.Props.C18
 open Wf Wf.Merkle
 
@@ -113,7 +118,9 @@ theorem prove_out_of_range (t : Tree D) (i : Nat) (hi : t.leaves.length ≤ i) :
 positions, in ANY order, `prove_batch` succeeds, returns the opened leaves in the order of the
 request, a proof of the tree's depth with one node vector per normalized index, and both
 `get_root` and `verify_batch` accept it (`L.length < 2^64`: the leaves fit a 64-bit address
-space, so `2usize.pow(depth)` does not wrap). -/
+space, so `2usize.pow(depth)` does not wrap).  Acceptance by `get_root` includes its leaf-count
+check (fix af69a4d: `prove_batch` returns exactly one leaf per index) and its consumption check
+(fix f1ad895): every node `prove_batch` emits is read, none is left over. -/
 theorem batch_opening_reconstructs_root [Inhabited D] [DecidableEq D] (merge : D → D → D)
     (L : List D) (t : Tree D) (ht : Tree.new merge L = .ok t) (h64 : L.length < 2 ^ 64)
     (idxs : List Nat) (hne : idxs ≠ []) (hnd : idxs.Nodup) (hr : ∀ i ∈ idxs, i < L.length) :
@@ -133,6 +140,19 @@ theorem batch_opening_reconstructs_root [Inhabited D] [DecidableEq D] (merge : D
     have hi : i < 2 ^ d := by have := hr i (List.mem_of_getElem? hj); omega
     rw [List.getElem?_map, hj, ← hl, H.leaf i hi]; rfl
   · simp [verifyBatch, hgr]
+
+/-- the honest prover's node vectors are consumed EXACTLY by `get_root` (what its consumption
+check, fix f1ad895, demands): for every valid index list the walk over `prove_batch`'s proof ends
+with `proof_pointers[i] = nodes[i].len()` at every position `i` -/
+theorem honest_batch_proof_is_consumed_exactly [Inhabited D] [DecidableEq D] (merge : D → D → D)
+    (L : List D) (t : Tree D) (ht : Tree.new merge L = .ok t) (h64 : L.length < 2 ^ 64)
+    (idxs : List Nat) (hne : idxs ≠ []) (hnd : idxs.Nodup) (hr : ∀ i ∈ idxs, i < L.length) :
+    ∃ lv p st, t.proveBatch idxs = .ok (lv, p) ∧ grRun merge p idxs lv = .ok st ∧
+      st.ptrs = p.nodes.map List.length := by
+  obtain ⟨lv, p, r, hpb, _, _, _, _, _, hgr, _⟩ :=
+    batch_opening_reconstructs_root merge L t ht h64 idxs hne hnd hr
+  obtain ⟨_, _, st, hrun, hptrs, _⟩ := getRoot_ok_inv merge p idxs lv r hgr
+  exact ⟨lv, p, st, hpb, hrun, hptrs⟩
 
 /-- `prove_batch` refuses an empty list, a list with an out-of-range position, and (all positions
 in range) a list with a duplicate -/
